@@ -15,12 +15,14 @@ import (
 	"crypto/sha256"
 	"crypto/x509"
 	"crypto/x509/pkix"
+	"encoding/asn1"
 	"encoding/json"
 	"fmt"
 	mrand "math/rand"
 	"os"
 	"os/exec"
 	"path/filepath"
+	"strings"
 	"time"
 
 	"github.com/sassoftware/relic/v8/lib/pkcs7"
@@ -77,7 +79,6 @@ func newEnv(r *res.Result) *env {
 		cmsx.BuildInput{ContentType: cmsx.OidTSTInfo, EContent: cmsx.TSTInfoOctets(bytes.Repeat([]byte{7}, 32), pkix.AlgorithmIdentifier{Algorithm: cmsx.OidSHA256}, nil, e.now), Time: e.now})
 	return e
 }
-
 
 type fakeTSA struct {
 	e     *env
@@ -554,6 +555,83 @@ func verifyAny(p *cmsx.Parts, cert *x509.Certificate, digest string) error {
 	return nil
 }
 
+// AttrLen: vh cms-attrlen — signer infos built by relic's own builder whose signed-attribute set takes every length from
+// about 80 to 300 content bytes (both DER length-form boundaries): the signature must verify over the attributes exactly as
+// emitted (re-tagged SET OF, DER length), judged by the harness's own walker and crypto, and the value must re-encode to itself.
+func AttrLen(args []string) {
+	r := res.New()
+	e := newEnv(r)
+	defer os.RemoveAll(e.dir)
+	oid := asn1.ObjectIdentifier{1, 3, 6, 1, 4, 1, 99999, 4}
+	seen := map[int]bool{}
+	for _, kn := range []string{"rsa2048", "p256"} {
+		ki := e.w.Keys[kn]
+		for _, second := range []bool{false, true} {
+			for n := 0; n <= 230; n++ {
+				sb := pkcs7.NewBuilder(ki.Signer, []*x509.Certificate{ki.Leaf.Cert}, crypto.SHA256)
+				if err := sb.SetContentData([]byte("payload under a signer info with padded attributes")); err != nil {
+					panic(err)
+				}
+				sb.AddAuthenticatedAttribute(oid, strings.Repeat("p", n))
+				if second {
+					sb.AddAuthenticatedAttribute(append(oid[:len(oid):len(oid)], 1), "q")
+				}
+				key := map[string]string{"engine": "cms-attrlen"}
+				rep := map[string]any{"key": kn, "pad": n, "second": second}
+				r.Eval(true)
+				psd, err := sb.Sign()
+				if err != nil {
+					key["kind"] = "builder-refuses"
+					r.Fail(key, rep, "builder refuses a %d-character attribute: %v", n, err)
+					continue
+				}
+				blob, err := psd.Marshal()
+				if err != nil {
+					key["kind"] = "marshal-error"
+					r.Fail(key, rep, "Marshal: %v", err)
+					continue
+				}
+				p, err := cmsx.ParseParts(blob)
+				if err != nil {
+					key["kind"] = "walker"
+					r.Fail(key, rep, "walker: %v", err)
+					continue
+				}
+				rep["attr_bytes"] = len(p.SAttrs)
+				seen[len(p.SAttrs)] = true
+				if err := verifyAny(p, ki.Leaf.Cert, "sha256"); err != nil {
+					key["kind"] = "digested-not-as-emitted"
+					r.Fail(key, rep, "%s: signer info with %d bytes of signed attributes: the signature does not verify over the attributes as emitted: %v", kn, len(p.SAttrs), err)
+					continue
+				}
+				back, err := pkcs7.Unmarshal(blob)
+				if err != nil {
+					key["kind"] = "own-unparsable"
+					r.Fail(key, rep, "relic cannot parse the value it built (%d attribute bytes): %v", len(p.SAttrs), err)
+					continue
+				}
+				if out, err := back.Marshal(); err != nil || !bytes.Equal(out, blob) {
+					key["kind"] = "own-not-reproduced"
+					r.Fail(key, rep, "the value does not re-encode to itself (%d attribute bytes, %v)", len(p.SAttrs), err)
+					continue
+				}
+				if _, err := back.Content.Verify(nil, false); err != nil {
+					key["kind"] = "relic-rejects-own"
+					r.Fail(key, rep, "relic's verifier rejects the value it built (%d attribute bytes): %v", len(p.SAttrs), err)
+				}
+			}
+		}
+	}
+	for _, l := range []int{127, 128, 129, 255, 256, 257} {
+		if seen[l] {
+			r.Count("boundary_lengths", 1)
+		}
+	}
+	r.Count("distinct_lengths", len(seen))
+	os.RemoveAll(e.dir)
+	r.Emit()
+}
+
 // Pss: vh cms-pss — CMS signatures built by relic's pkcs7 builder with RSA-PSS (every way of stating the salt length)
 // must be accepted by openssl cms -verify.
 func Pss(args []string) {
@@ -683,9 +761,18 @@ func Replay(args []string) {
 		// two thirds of the shape space are non-DER encodings that must simply be refused: keep them to a tenth of the sample
 		var pick []*beh
 		nref := 0
+		for _, b := range behs { // the attribute-length classes are few and always replayed
+			if b.Shape.ALen != "" && b.Shape.ALen != "natural" {
+				pick = append(pick, b)
+			}
+		}
+		max += len(pick)
 		for _, b := range behs {
 			if len(pick) >= max {
 				break
+			}
+			if b.Shape.ALen != "" && b.Shape.ALen != "natural" {
+				continue
 			}
 			if b.Outcome == "refused" {
 				if nref >= max/10 {
